@@ -297,6 +297,7 @@ def main(argv=None):
             "cases": len(cases),
             "counters": dict(sorted(counters.items())),
             "distinct": {name: len(vals) for name, vals in sorted(sets.items())},
+            "distinct_values": {name: sorted(map(str, vals))[:60] for name, vals in sorted(sets.items())},
             "inconclusive_cases": len(inconclusive),
             "inconclusive_samples": inconclusive[:5],
             "missing_reach": missing_reach,
